@@ -374,6 +374,13 @@ deriving DecidableEq, Repr
 def classify (d : Dom) (size : Nat) : Kind :=
   if size % d.nel = 0 then .cell else if size % d.nnodes = 0 then .point else .skip
 
+/-- SWITCH for the repair `corpus/defects/c20_single_block_pad.patch` (`vec.astype(np.float32).reshape(-1)` in the
+    `nvectors == 1` branch of the point-data loop).
+    `false`: the code as pinned — a 2-D block holding ONE 2-component nodal vector in a 2-D domain, shape
+    `(1, 2*nnodes)` or `(2*nnodes, 1)`, raises ValueError (the 2-D array itself is sliced with `[0::2]`);
+    `true` : the repaired code — the block is flattened first and written like the 1-D vector. -/
+def singleBlockPadRepaired : Bool := true
+
 /-- the arrays one point-data vector contributes (body of the point-data loop) -/
 def pointArrs (d : Dom) (v : Vec) : Except String (List Arr) :=
   match firstAxis d.nnodes v.shape 0 with
@@ -391,7 +398,8 @@ def pointArrs (d : Dom) (v : Vec) : Except String (List Arr) :=
         let w := if pad then pad2d d.nnodes col else col
         ⟨v.name ++ (40 :: (natDecPad nzeros i ++ [41])), outc, w.flatten⟩)
     else if nvectors = 1 then
-      if pad ∧ v.shape.length = 2 then .error "ValueError"   -- 2-D slice does not broadcast into `vec_pad[0::3]`
+      if pad ∧ v.shape.length = 2 ∧ singleBlockPadRepaired = false then
+        .error "ValueError"   -- unrepaired: the 2-D slice does not broadcast into `vec_pad[0::3]`
       else
         let w := if pad then pad2d d.nnodes v.words else v.words
         .ok [⟨v.name, outc, w.flatten⟩]
